@@ -250,7 +250,26 @@ def gen_history(r, flavour):
                 s.op_release(root)
             if r.random() < 0.5:
                 s.op_reserve(p, r.choice([1, a, 2 * a, max(1, a // 2)]))
-        elif mode < 0.75:
+        elif mode < 0.72:
+            # zero-sized twins: empty slices of different blocks end on one offset after packing (F06c);
+            # both creation orders, because the failure depends on the address order of the objects
+            ks = []
+            for _ in range(r.randint(2, 3)):
+                if s.op_reserve(p, r.choice([a, a, 2 * a])):
+                    ks.append([x for x in s.slots][-1])
+            order = list(ks)
+            r.shuffle(order)
+            for kk in order:
+                k2 = s.free_slot()
+                if k2 is not None:
+                    off = r.choice([0, 0, s.slots[kk]["size"]])
+                    s.emit("slice %d %d %d 0" % (k2, kk, off))
+                    v = dict(s.slots[kk]); v["size"] = 0; s.slots[k2] = v
+            for kk in ks:
+                if r.random() < 0.8:
+                    s.op_release(kk)
+            r.choice([s.op_shrink, s.op_resize, s.op_align])(p)
+        elif mode < 0.80:
             # pool without reservations whose size is not a multiple of the new alignment
             s.op_resize(p)
             s.op_align(p, r.choice(ALIGNS))
